@@ -339,7 +339,9 @@ def run(tier, seed, replay=None):
         small = dc['scenario']['kind'] == 'caught-up'
         for (a, la), (b, _lb) in zip(bounds, bounds[1:]):
             span = list(range(a, max(a + 1, b)))
-            if tier == 'thorough' or (small and la == 'caught-up-new-block') or (dc['scenario']['kind'] == 'reorg-mid-sync' and la == 'initial-sync'):
+            if tier == 'quick' and dc['scenario']['kind'] == 'reorg-mid-sync' and la == 'initial-sync' and len(span) > 250:
+                ks.update(rng.sample(span, 250))      # a long sync window: a dense sample keeps the quick tier within minutes
+            elif tier == 'thorough' or (small and la == 'caught-up-new-block') or (dc['scenario']['kind'] == 'reorg-mid-sync' and la == 'initial-sync'):
                 ks.update(span)                       # every instant of the window
             else:
                 n = 14 if la in ('initial-sync', 'reorg', 'after-reorg', 'caught-up-new-block', 'caught-up-new-block-2', 'daemon-down') else 6
